@@ -13,7 +13,7 @@ import Tickit.Driver.Common
         — the unbuffered stream; nothing lost, duplicated or reordered
     S4  with a buffer of n > 0 bytes in force, no chunk of `main` is longer than n
     S5  the bytes accepted but not delivered (|ref stream| - |main stream|) number < n  (= 0 when n = 0)
-    S6  after flush, teardown, destroy (and after the driver's start-up, which ends with a flush)
+    S6  after flush, pause, teardown, destroy (and after the driver's start-up, which ends with a flush)
         main stream = ref stream: nothing remains pending
   The property fixes the buffer size "while output is pending": a `setbuf` issued while S5's difference is
   non-zero puts the rest of that history outside the property (`excluded`); model and implementation are
@@ -189,6 +189,7 @@ def step (s : St) (ts : List String) (impl : String) : St × String × String :=
       let kind := match o with
         | .flush => Kind.drains
         | .teardown => Kind.drains
+        | .pause => Kind.drains
         | .destroy => Kind.drains
         | .setbuf k => Kind.setbuf k
         | _ => Kind.other
